@@ -710,3 +710,7 @@ Definition legacy_pool_fields_ok (l : list (string * string * string)) : bool :=
              (String.eqb target "Transport.MaxPoolCount" && String.eqb source "MaxPoolCount" && String.eqb key "max_pool_count") ||
              (String.eqb target "Transport.PoolCount" && String.eqb source "PoolCount" && String.eqb key "pool_count")) l
   && Nat.eqb (List.length l) 2.
+
+(* the four facts of the visitor accept path must all hold (T11send/paths) *)
+Definition visitor_path_ok (l : list (string * bool)) : bool :=
+  forallb snd l && Nat.eqb (List.length l) 4.
